@@ -311,7 +311,7 @@ def run(ctx):
         for r in raws:
             cases.append((O, "bool", bool, v, r, True))
     # seeded random
-    for _ in range(ctx.size(150, 3000)):
+    for _ in range(ctx.size(1500, 100_000)):
         k = rng.randrange(5)
         r = rng.choice(raws + [rng.getrandbits(16), rng.random()])
         has = rng.random() < 0.7
@@ -351,7 +351,7 @@ def harvest(ctx):
     for ji, (xml, pkt, kw) in enumerate(jobs):
         if not ctx.mine(ji):
             continue
-        limit = ctx.size(6, 120)
+        limit = ctx.size(20, 2000)
         with warnings.catch_warnings():
             warnings.simplefilter("ignore")
             d = spp.load_xml(os.path.join(data, xml))
